@@ -5,6 +5,8 @@ Line-protocol driver for C09.
 
   ev <tok>*          evalInfixExp on an arbitrary token list (VerifC09EvalTokens)
                      tok = <ty-char><sub-char><hex(TValue) or ->
+  opn b m s c x<0|1> a saved-and-reopened workbook (base b, package mutation m), cell s!c evaluated
+                     three times on one *File and once on a fresh one; x = expansion fails
   cyc M e d0 d1 …    CalcCellValue of cell e in a one-column workbook with
                      MaxCalcIterations = M; d_i = L<int> (number cell) |
                      F<int>:i,j,… (=A_i+A_j+…+int) | S<int>:lo:hi (=SUM(A_lo:A_hi)+int)
@@ -474,13 +476,32 @@ def runCyc (M entry : Nat) (ds : List String) : String :=
       | some (v, c) =>
         let its := (List.range cells.length).filterMap fun i =>
           if c.iterations i > 0 then some s!"{i}={c.iterations i}" else none
-        s!"ok {v} it={",".intercalate its} calls={c.calls}"
+        let vs := if v.natAbs > 9007199254740992 then "big" else toString v
+        s!"ok {vs} it={",".intercalate its} calls={c.calls}"
+
+/-- `opn … x<0|1>`: three evaluations on one opened `*File` (answer class + formulaChecked after
+each) and the answer of a freshly opened one; x = does the lazy array-formula expansion fail -/
+def runOpn (x : String) : String :=
+  let e := x == "x1"
+  if x != "x0" && x != "x1" then "bad-op" else
+  let show1 (r : Ans × Bool) : String :=
+    (match r.1 with
+      | .value => "V"
+      | .error => "E") ++ (if r.2 then "1" else "0")
+  let three := (runLazy e .value 3 ⟨false⟩).map show1
+  let fresh := match (evalLazy e .value ⟨false⟩).1 with
+    | .value => "V"
+    | .error => "E"
+  " ".intercalate (three ++ [fresh])
 
 def step (w : List String) : String :=
   match w with
   | "ev" :: toks => match parseToks toks with
     | some ts => showOutcome (evalTokens semC ts)
     | none => "bad-op"
+  | "opn" :: rest => (match rest.getLast? with
+    | some x => runOpn x
+    | none => "bad-op")
   | "cyc" :: m :: e :: ds => match m.toNat?, e.toNat? with
     | some m, some e => runCyc m e ds
     | _, _ => "bad-op"
